@@ -237,19 +237,20 @@ static void recycle_classes_prog()
     static St s;
     s = St{};
     g = &s;
-    int x = pmc_choose(3, 0), y = pmc_choose(3, 0);
+    int x = pmc_choose(4, 0), y = pmc_choose(4, 0);
     int yields_between = pmc_choose(2, 0) * 2;
     static long real_size[2], reported[2];
     static int ran;
     real_size[0] = real_size[1] = reported[0] = reported[1] = ran = 0;
     rt::config c;
     c.workers = pmc_choose(2, 0) + 1;
-    // distinct sizes for all classes (in this build small and medium default to the same 128 KiB, which
-    // would make the medium branch of the recycling code unreachable)
-    c.extra = {"pika.thread_queue.max_terminated_threads=0", "pika.stacks.medium_size=0x40000"};
+    // distinct, non-default sizes for all classes (in this build small and medium default to the same
+    // 128 KiB, which would make the medium branch of the recycling code unreachable; a size that is only
+    // honoured when it equals the default would go unnoticed)
+    c.extra = {"pika.thread_queue.max_terminated_threads=0", "pika.stacks.small_size=0x28000", "pika.stacks.medium_size=0x40000", "pika.stacks.large_size=0x300000", "pika.stacks.huge_size=0x800000"};
     rt::start(c);
-    static const pika::execution::thread_stacksize cls[3] = {pika::execution::thread_stacksize::small_, pika::execution::thread_stacksize::medium, pika::execution::thread_stacksize::large};
-    static const char* key[3] = {"pika.stacks.small_size", "pika.stacks.medium_size", "pika.stacks.large_size"};
+    static const pika::execution::thread_stacksize cls[4] = {pika::execution::thread_stacksize::small_, pika::execution::thread_stacksize::medium, pika::execution::thread_stacksize::large, pika::execution::thread_stacksize::huge};
+    static const char* key[4] = {"pika.stacks.small_size", "pika.stacks.medium_size", "pika.stacks.large_size", "pika.stacks.huge_size"};
     long configured[2] = {std::stol(pika::detail::get_config_entry(key[x], std::string("0")), nullptr, 0), std::stol(pika::detail::get_config_entry(key[y], std::string("0")), nullptr, 0)};
     rt::spawn([&, x, y, yields_between] {
         for (int k = 0; k < 2; ++k)
